@@ -68,7 +68,7 @@ EvFails(e) ==
   \cup (IF \A k \in 1..Len(e.ints) : IntervalOK(e.ints[k]) THEN {} ELSE {"C15.log_mean_within_bracket"})
   \cup (IF e.area > 0 THEN {} ELSE {"C15.area_positive_finite"})
   (* area x K = sum q_i (rn/rd) K / L_i ; integer division error <= 1 per interval *)
-  \cup (IF Abs(SumQ(LAMBDA v : (((v.q * v.rn) \div v.rd) * 100) \div v.L, e.ints) - e.area) * 1000 <= 2 * e.area + 3000 * (Len(e.ints) + 1)
+  \cup (IF Abs(SumQ(LAMBDA v : (((v.q * v.rn) \div v.rd) * 100) \div v.L, e.ints) - e.area) * 1000 <= 2 * e.area + 3000 * (Len(e.ints) + 1) + 1000 * e.approx      \* e.approx: resolution of the rational transport of the resistances (denominators <= 24), computed by the sender
         THEN {} ELSE {"C15.area_is_sum_of_interval_areas"})
   \cup (IF e.costExp1 = 0 \/ Abs(e.cost - (e.N * e.a + e.b * (e.area \div 100))) * 1000 <= 2 * e.cost + 1000 * e.b THEN {} ELSE {"C15.capital_cost_law"})
 
